@@ -63,6 +63,7 @@ func (f *File) ResetFaults() {
 }
 
 func (f *File) Read(p []byte) (int, error) {
+	simrt.Yield("disk.read")
 	if f.FailRead >= 0 && f.nRead == f.FailRead {
 		f.nRead++
 		fReadErr.Hit()
@@ -97,6 +98,7 @@ func (f *File) Read(p []byte) (int, error) {
 }
 
 func (f *File) writeAt(p []byte, off int64) (int, error) {
+	simrt.Yield("disk.write")
 	n := len(p)
 	var err error
 	if f.FailWrite >= 0 && f.nWrite == f.FailWrite {
@@ -110,15 +112,48 @@ func (f *File) writeAt(p []byte, off int64) (int, error) {
 	f.nWrite++
 	if n > 0 {
 		end := off + int64(n)
-		if end > int64(len(f.Img)) {
-			f.Img = append(f.Img, make([]byte, end-int64(len(f.Img)))...)
+		oldLen := int64(len(f.Img))
+		if end > oldLen {
+			if end > int64(cap(f.Img)) {
+				// grow geometrically without touching the new pages
+				nc := 2 * int64(cap(f.Img))
+				if nc < end {
+					nc = end
+				}
+				ni := make([]byte, end, nc)
+				copy(ni, f.Img)
+				f.Img = ni
+			} else {
+				f.Img = f.Img[:end] // never written before: the image only grows
+			}
 		}
-		copy(f.Img[off:end], p[:n])
+		// zero runs written beyond the old end need no copy (keeps huge, mostly
+		// empty files cheap)
+		if off >= oldLen && allZero(p[:n]) {
+			// already zero
+		} else {
+			copy(f.Img[off:end], p[:n])
+		}
 	}
 	if f.Record {
 		f.Journal = append(f.Journal, Write{Off: off, Data: append([]byte(nil), p[:n]...)})
 	}
 	return n, err
+}
+
+func allZero(b []byte) bool {
+	for len(b) >= 8 {
+		if b[0]|b[1]|b[2]|b[3]|b[4]|b[5]|b[6]|b[7] != 0 {
+			return false
+		}
+		b = b[8:]
+	}
+	for _, x := range b {
+		if x != 0 {
+			return false
+		}
+	}
+	return true
 }
 
 func (f *File) Write(p []byte) (int, error) {
